@@ -278,3 +278,26 @@ PROPS["C20"] = dict(
         seeded("record", "e2e", "^TestC20Record$", 150 if tier == "quick" else 4000, 8 if tier == "quick" else 16, timeout=1800),
     ],
 )
+
+PROPS["C02"] = dict(
+    title="Server sessions follow the RTSP state machine; one response per request",
+    pkg="e2e",
+    rule=("rapid-generated sequences (<=26 requests) of well-formed OPTIONS / DESCRIBE / ANNOUNCE / SETUP(track 0|1, play|record, TCP|UDP) / PLAY / "
+          "RECORD / PAUSE / TEARDOWN / GET_PARAMETER / SET_PARAMETER with the current, no or a wrong Session header, on the same or a new "
+          "connection, often after a guided play or record prefix, against servers offering TCP or TCP+UDP with five handler subsets "
+          "(full, no-play, no-record, no-pause, no-describe); a raw client reads the control connection. Oracles against a reference model "
+          "of the five session states: exactly one response per request with the request's CSeq (interleaved frames skipped, no "
+          "unsolicited response at the end); status class 2xx vs >=400 as the model predicts (either accepted where RFC 2326 and the "
+          "library's documented sets differ or the outcome depends on an unknown id); after every response ServerSession.State() equals "
+          "the model state, unchanged by error responses; the server closes a connection only after an error response on it; a session "
+          "ends within 3 s of TEARDOWN or of losing its last connection unless it streams over UDP, and not otherwise; every "
+          "OnSessionOpen has exactly one OnSessionClose after Server.Close (which returns within 8 s). Non-trivial: the sequence reaches "
+          "PLAY or RECORD and contains >=1 request the model marks illegal or spans >=2 connections. Distinct by case hash."),
+    assumptions=[
+        "the application handler never closes sessions itself; one client at a time",
+        "the idle/read timeout half of the property is checked by a separate job with scaled periods",
+    ],
+    jobs=lambda tier: [
+        seeded("sm", "e2e", "^TestC02$", 200 if tier == "quick" else 2500, 8 if tier == "quick" else 16, timeout=3000),
+    ],
+)
